@@ -42,6 +42,17 @@ CHECKS.update({
         note='conditioning (accuracy for ill-conditioned B) is runtime and not decided', ref='3 C08'),
 })
 
+CHECKS.update({
+    'C02': dict(
+        level='other', technique='partial evaluation of the selection layer over the finite configuration space; Horn-clause derivability oracle',
+        text='Static, finite space enumerated: core/conversions.py and the graph factories are partially evaluated for every (origin, target, scatter) and coordinate subset with kernels uninterpreted and transform_coords modelled; success/RuntimeError and the named missing coordinate equal derivability under clauses written from the documented formulas; the mode decision table, graph-reported-is-graph-used and mode-coordinate-consumed rules hold. Quick enumerates the cone of influence of each target (monotone closure), thorough all 4x22x2x2048 configurations.',
+        note='trusts the three-line model of scipp.transform_coords and spec/convert_spec.py; values follow from the one-step soundness rules of C01/C03/C05', ref='3 C02'),
+    'C09': dict(
+        level='other', technique='interprocedural effect summaries (who-may-mutate, returns-alias-of) to a fixpoint over the call graph; object-identity interpretation of kernels',
+        text='Static: no public function of the conversion/chopper/tof/peaks/absorption/io/atoms modules writes to an object reachable from an argument or to module-level state (frozen list of documented mutators excepted), with copy=False conversions counted as aliases; no module table or memoised object is handed out; copy()/with_*() share no container with the original; cached lookups expose no mutable state except through copying accessors.',
+        note='trusts the tables of mutating/aliasing/copying library calls in sa/effects.py; the heap abstraction is field-insensitive beyond one access path (over-approximate for mutation)', ref='3 C09'),
+})
+
 NA_REASON = 'check not built yet (planned: see DESIGN.md section 3)'
 
 
